@@ -320,8 +320,13 @@ def run(prog: Program, res: Result, tier: str) -> None:
                                "np.vstack", "np.transpose")
           and "data[" in norm(n)]
     cols = re.findall(r"data\['([xyz])'\]", norm(cs[0], 300)) if cs else []
-    if "PERIODIC_TABLE[atom] for atom in data['atom']" in rt and \
-            cols == ["x", "y", "z"]:
+    from ..core import alpha_norm
+    lookup = any(alpha_norm(n) in (
+        "[PERIODIC_TABLE[_v0] for _v0 in data['atom']]",
+        "(PERIODIC_TABLE[_v0] for _v0 in data['atom'])")
+        for n in ast.walk(r.node)
+        if isinstance(n, (ast.ListComp, ast.GeneratorExp)))
+    if lookup and cols == ["x", "y", "z"]:
         res.ok("X-FORMAT", inst, r.loc())
     elif cols and cols != ["x", "y", "z"]:
         res.bad("X-FORMAT", f"reader columns {cols}", r.loc(cs[0]),
